@@ -103,6 +103,16 @@ Theorem update_ill_formed_calls_refused : forall (V : Type) (h : hist V) (v : op
 Proof. exact @update_refused. Qed.
 Print Assumptions update_ill_formed_calls_refused.
 
+(** a value of a type that is not allowed (str, dict, object): the call is refused whatever
+    its other arguments - there is no resulting history, the parameter stays as it was
+    (corr/Corr_C06.v, [steps] and [tree_steps], carry on with the old history) - and with
+    an allowed value [update_checked] is [update] *)
+Theorem update_ill_typed_value_refused : forall (V : Type) (h : hist V) p start stop,
+  (forall v, update_checked h p start stop (UVal v) = update h p start stop v)
+  /\ (exists x, update_checked h p start stop (@UIllTyped V) = Err x).
+Proof. exact @update_checked_spec. Qed.
+Print Assumptions update_ill_typed_value_refused.
+
 (** ** update keeps the history strictly decreasing, so the statements compose *)
 
 Theorem update_sorted : forall (V : Type) (h : hist V) (s : Z) (e : option Z) (v : option V),
